@@ -17,11 +17,11 @@
 enum {
   OP_START_A, OP_START_B, OP_START_INVALID, OP_START_FAILING, OP_PID, OP_WRITE, OP_WRITE_NULL0, OP_READ_OUT, OP_READ_ERR, OP_READ_OUT0, OP_READ_IN, OP_READ_NULLBUF,
   OP_CLOSE_IN, OP_CLOSE_OUT, OP_CLOSE_ERR, OP_CLOSE_BAD, OP_POLL, OP_POLL_NULL, OP_WAIT0, OP_WAIT_DEADLINE, OP_TERMINATE, OP_KILL, OP_STOP_W0, OP_STOP_KINF,
-  OP_DESTROY_NEW, OP_CHILD_STEP, OP_TIME_PASSES, OP_NULL_HANDLE, OP_WAIT0_EINTR, NOPS
+  OP_DESTROY_NEW, OP_CHILD_STEP, OP_TIME_PASSES, OP_NULL_HANDLE, OP_WAIT0_EINTR, OP_START_EMPTY_INPUT, NOPS
 };
 static const char *const op_names[NOPS] = { "start(echo)", "start(exit0)", "start(invalid)", "start(failing,deadline)", "pid", "write(ab)", "write(NULL,0)", "read(out,4)",
   "read(err,4)", "read(out,0)", "read(in)", "read(NULL buffer)", "close(in)", "close(out)", "close(err)", "close(9)", "poll(15,0)", "poll(NULL)", "wait(0)",
-  "wait(DEADLINE)", "terminate", "kill", "stop{wait 0}", "stop{kill INF}", "destroy+new", "child-step", "time-passes", "NULL-handle-calls", "wait(0)-with-interrupted-reap" };
+  "wait(DEADLINE)", "terminate", "kill", "stop{wait 0}", "stop{kill INF}", "destroy+new", "child-step", "time-passes", "NULL-handle-calls", "wait(0)-with-interrupted-reap", "start(echo,input of size 0)" };
 
 enum { L_NS, L_RUN, L_EX };
 enum { E_OPEN, E_CLOSED, E_NOPIPE };
@@ -90,6 +90,8 @@ static void do_start(int op)
   static const char *bad[] = { "/nonexistent/c14-program", NULL };
   if (op == OP_START_INVALID) { o.redirect.parent = o.redirect.discard = true; o.redirect.err.type = REPROC_REDIRECT_DEFAULT; }
   if (op == OP_START_FAILING) { argv = bad; o.deadline = 1; }
+  static const uint8_t nothing[1] = { 0 };
+  if (op == OP_START_EMPTY_INPUT) { o.input.data = nothing; o.input.size = 0; vk_script("E X3"); }
   if (op == OP_START_A) vk_script("E X3");
   if (op == OP_START_B) vk_script("X0");
   if (op == OP_START_FAILING) vk_script("");
@@ -99,6 +101,13 @@ static void do_start(int op)
   if (op == OP_START_FAILING) { expect(op, r, r == -ENOENT, "the program does not exist"); return; }
   expect(op, r, r > 0, "a valid start on a fresh handle must succeed");
   if (r > 0) after_start_ok();
+  if (r > 0 && op == OP_START_EMPTY_INPUT) {
+    /* reproc.h: if input is set, the stdin pipe is closed after it has been written - also when there was nothing to write */
+    expect(op, r, pfd[0] < 0, "start-up input was given, yet the parent still holds a stdin pipe end");
+    endst[0] = E_CLOSED;
+    endcause[0] = op + 1;
+    pfd[0] = -1;
+  }
 }
 
 static void do_op(int op)
@@ -106,7 +115,7 @@ static void do_op(int op)
   uint8_t buf[8];
   int r;
   switch (op) {
-    case OP_START_A: case OP_START_B: case OP_START_INVALID: case OP_START_FAILING:
+    case OP_START_A: case OP_START_B: case OP_START_INVALID: case OP_START_FAILING: case OP_START_EMPTY_INPUT:
       do_start(op);
       return;
     case OP_PID:
